@@ -181,13 +181,9 @@ macro_rules! vec_lit_kind {
 fn num_elems<T: std::str::FromStr + ToString>(a: &syn::ExprArray) -> Option<String> {
     let mut out = vec![];
     for el in &a.elems {
-        // one level of invisible group is looked through, as for every other value
-        let l = match el {
+        // invisible groups are looked through, however many, as for every other value
+        let l = match strip_groups(el) {
             Expr::Lit(l) => &l.lit,
-            Expr::Group(g) => match &*g.expr {
-                Expr::Lit(l) => &l.lit,
-                _ => return None,
-            },
             _ => return None,
         };
         let v: T = match l {
@@ -568,6 +564,32 @@ fn group_value_tokens(text: &str, depth: usize) -> Option<proc_macro2::TokenStre
     Some(toks[..=eq].iter().cloned().chain(value).collect())
 }
 
+/// `name = [a, b, ..]` with the tokens of `a` inside `depth` invisible groups
+fn group_first_element(text: &str, depth: usize) -> Option<proc_macro2::TokenStream> {
+    use proc_macro2::{Delimiter, Group, TokenStream, TokenTree};
+    let toks: Vec<TokenTree> = text.parse::<TokenStream>().ok()?.into_iter().collect();
+    let eq = toks.iter().position(|t| matches!(t, TokenTree::Punct(p) if p.as_char() == '='))?;
+    let [TokenTree::Group(arr)] = &toks[eq + 1..] else { return None };
+    if arr.delimiter() != Delimiter::Bracket {
+        return None;
+    }
+    let inner: Vec<TokenTree> = arr.stream().into_iter().collect();
+    let end = inner.iter().position(|t| matches!(t, TokenTree::Punct(p) if p.as_char() == ',')).unwrap_or(inner.len());
+    if end == 0 {
+        return None;
+    }
+    let mut first: Vec<TokenTree> = inner[..end].to_vec();
+    for _ in 0..depth {
+        let span = first.first().unwrap().span().join(first.last().unwrap().span()).unwrap_or_else(|| first.last().unwrap().span());
+        let mut g = Group::new(Delimiter::None, first.into_iter().collect());
+        g.set_span(span);
+        first = vec![TokenTree::Group(g)];
+    }
+    let mut new_arr = Group::new(Delimiter::Bracket, first.into_iter().chain(inner[end..].iter().cloned()).collect());
+    new_arr.set_span(arr.span());
+    Some(toks[..=eq].iter().cloned().chain(std::iter::once(TokenTree::Group(new_arr))).collect())
+}
+
 #[allow(dead_code)]
 fn wrap_group(e: Expr) -> Expr {
     let sp = e.span();
@@ -609,6 +631,8 @@ fn prepare(frag: &str, rng: &mut Rng) -> Vec<Prepared> {
     };
     push(format!("x = {frag}"), "bare", false);
     push(format!("x = {frag}"), "bare-grouped", true);
+    // an array whose first element is a fragment of a fragment (two invisible groups around it)
+    let element_grouped = group_first_element(&format!("x = {frag}"), 2).and_then(|ts| syn::parse2::<Meta>(ts).ok());
     let qs = quote_str(frag, rng);
     push(format!("x = {qs}"), "quoted", false);
     push(format!("x = {qs}"), "quoted-grouped", true);
@@ -625,6 +649,14 @@ fn prepare(frag: &str, rng: &mut Rng) -> Vec<Prepared> {
     }
     if rng.chance(1, 10) {
         push("x".to_string(), "word", false);
+    }
+    if let Some(m) = element_grouped {
+        out.push(Prepared {
+            meta: m,
+            text: format!("x = {frag}"),
+            spelling: "element-grouped2",
+            span_ok: true,
+        });
     }
     out
 }
